@@ -35,6 +35,7 @@ def run(ctx):
     ctx.guard(rule_a, ctx, ix)
     ctx.guard(rule_b, ctx, ix)
     ctx.guard(rule_c, ctx, ix)
+    ctx.guard(rule_d, ctx, ix)
 
 
 def _loop(f, data_p):
@@ -196,3 +197,27 @@ def rule_c(ctx, ix):
         unparse(kwarg(ld[0], 'factory')) == '%s.factory' % sn and any(k.arg is None and unparse(k.value) == '%s.kwargs' % sn for k in ld[0].keywords)
     ctx.ob(R, r.construct, 'reload re-reads the same path with the same factory and arguments', ok,
            detail='LoadLog.reload does not call load_data(self.path, factory=self.factory, **self.kwargs)', where=r.where)
+
+
+def rule_d(ctx, ix):
+    """One load log per load_data call, shared by every dataset the file produced (the log loader hands back the log of the
+    *first* dataset and every component is looked up in it by index)."""
+    R = 'C19.d'
+    ctx.describe(R, 'load_data creates one log per file and logs every dataset and component in it', floor=3)
+    f = ix.func('glue.core.data_factories.helpers.load_data')
+    pm = parent_map(f.node)
+    mk = [c for c in calls_in(f.node) if call_name(c) == 'LoadLog']
+    ok = len(mk) == 1 and not [g for g, br in guard_chain(pm, mk[0], f.node) if isinstance(g, (ast.For, ast.While))]
+    ctx.ob(R, f.construct, 'exactly one LoadLog is created per call, outside the per-dataset loop', ok,
+           detail='load_data creates its LoadLog %s: datasets of one file no longer share a log, but the restored session takes the '
+                  'log of the first dataset for all of them (every later dataset comes back with the first one\'s values)'
+                  % ('inside the per-dataset loop' if len(mk) == 1 else '%d times' % len(mk)), where=f.where)
+    if mk:
+        a = [unparse(x) for x in mk[0].args]
+        ctx.ob(R, f.construct + ' args', 'the log records the path, the factory and the keyword arguments of this call',
+               a == ['path', 'factory', 'kwargs'], detail='LoadLog is created with (%s)' % ', '.join(a), where=where(f, mk[0]))
+    logs = [c for c in calls_in(f.node) if call_name(c) == 'log' and 'log' in unparse(c.func.value)]
+    loops = [n for n in walk_no_nested(f.node) if isinstance(n, ast.For)]
+    inloop = [c for c in logs if any(any(c is x for x in ast.walk(lp)) for lp in loops)]
+    ctx.ob(R, f.construct + ' logging', 'every dataset and each of its components is logged', len(inloop) >= 2,
+           detail='load_data logs %d objects inside its dataset loop (expected the dataset and its components)' % len(inloop), where=f.where)
